@@ -8,5 +8,6 @@ func main() {
 		"c13":   c13,
 		"c13hs": c13hs,
 		"c11":   c11,
+		"c12":   c12,
 	})
 }
